@@ -315,6 +315,16 @@ def check_outbound(function, p, as_pdu):
         pdu = PDU()
         x.encode(pdu)
         compare("encode", bytes(pdu.pduData))
+        # the same message object sent again (one Write-BDT pushed to several BBMDs, a retransmitted ack): same octets
+        for again in (2, 3):
+            x = B.BVLPDU()
+            m.encode(x)
+            pdu2 = PDU()
+            x.encode(pdu2)
+            if bytes(pdu2.pduData) != bytes(pdu.pduData):
+                fails.append(("encode:%s:encoding-number-%d-of-the-same-message-differs" % (name, again),
+                              dict(where, first=short(bytes(pdu.pduData)), again=short(bytes(pdu2.pduData)))))
+                break
     except Exception as err:
         fails.append(("encode:%s:raises-%s" % (name, type(err).__name__), dict(where, error=repr(err))))
     # through the codec
